@@ -191,5 +191,6 @@ func main() {
 		Name:      "difficulty",
 		NewDriver: func() core.Driver { return &drv{} },
 		Recorders: map[string]core.Recorder{"default": record},
+		Extra:     map[string]func(*core.Env, []string) int{"sweep": sweep},
 	})
 }
